@@ -219,3 +219,5 @@ class C12(Check):
 
 
 CHECK = C12()
+# scope added in later rounds, kept in the evidence text
+CHECK.rule += ' Huge family: rows with coordinates around 2^32.'
